@@ -258,64 +258,119 @@ def _snippet_eval(repo, fi, names, env):
 
 
 def _linear(repo, col):
+    """Secant linearisation of the currents, decided on the defining terms of what is accumulated (no local name matters):
+    slope = (I(v + d) - I(v)) / d, offset = I(v) - slope * v at the compartment the current flows into, with ONE small positive d
+    that is also the perturbation of the stacked voltages handed to compute_current."""
     R = "R-C09-linear"
-    A = lambda s: PW.of(Rat.atom(s))
-    # channels
+    from sa.termalg import term_rat as _trat
+    from sa.algebra import Rat as _Rat, Und as _Und
+    from sa.terms import fuse_comprehensions as _fuse
     fc = repo.method("Module", "_channel_currents")
     fs = repo.method("Network", "_synapse_currents")
-    specs = (
-        (fc, {"membrane_currents": (A("I0"), A("I1")), "diff": A("d"), "voltages": ArrV("voltages"), "indices": IdxV("own")}, "own"),
-        (fs, {"synapse_currents_dist": (A("I0"), A("I1")), "diff": A("d"), "voltages": ArrV("voltages"),
-              "post_inds": IdxV("post"), "pre_inds": IdxV("pre")}, "post"),
-    )
-    forms = {}
-    for fi, env, who in specs:
+
+    def is_cur(x):
+        """the evaluated currents: vmap(<mechanism>.compute_current)(...) / its conversion to a current density"""
+        if x.op == "call" and x.name == "convert_point_process_to_distributed" and x.args:
+            return is_cur(x.args[0])
+        return x.op == "callv" and T.find(x.args[0], lambda y: y.op == "attr" and y.name == "compute_current") is not None
+
+    def is_v(x):
+        return x.op == "sub" and x.args[0].op == "sub" and x.args[0].args[0].op == "param" and x.args[0].args[0].name in ("states", "u") and \
+            x.args[0].args[1].op == "const" and x.args[0].args[1].name == "v"
+
+    def analyse(fi, slope_t, off_t, who, rows_key, node):
+        cur = T.find(slope_t, is_cur)
+        if cur is None:
+            col.unk(R, fi, f"{fi.name}: linearisation", "the evaluated currents were not found in the slope", node=node)
+            return None
+        raw = cur
+        while raw.op == "call":
+            raw = raw.args[0]
+        stacks = [x for x in raw.walk() if x.op == "mcall" and x.name == "stack" and len(x.args) > 1 and x.args[1].op in ("list", "tuple") and len(x.args[1].args) == 2]
+        ds = set()
+        ok_stack = bool(stacks)
+        for st_ in stacks:
+            v0, v1 = st_.args[1].args
+            good = v1.op == "binop" and v1.name == "+" and v1.args[0].key() == v0.key() and v1.args[1].op == "const" and is_v(v0)
+            ok_stack = ok_stack and good
+            if good:
+                ds.add(v1.args[1].name)
+        col.check(ok_stack and len(ds) == 1, R, fi, f"{fi.name}: the currents are evaluated at [v, v + d] for one perturbation d",
+                  f"stack([v[rows], v[rows] + {sorted(ds)}])", f"the stacked voltages are {[x.short(70) for x in stacks]}", node=node)
+        if len(ds) != 1:
+            return None
+        d = ds.pop()
+        col.check(isinstance(d, (int, float)) and 0 < d <= 0.01, R, fi, f"{fi.name}: the perturbation is small and positive", str(d), f"d = {d}", node=node)
+
+        def leaf(x):
+            if x.op == "sub" and x.args[1].op == "const" and x.args[1].name in (0, 1) and x.args[0].key() == cur.key():
+                return _Rat.atom(f"I{x.args[1].name}")
+            if is_v(x):
+                return _Rat.atom("V@" + ("own" if x.args[1].key() == rows_key else x.args[1].key()[:40]))
+            return None
         try:
-            ev, out = _snippet_eval(repo, fi, ("voltage_term", "constant_term"), dict(env))
-        except Und as e:
-            col.unk(R, fi, "linearisation", f"outside the analysable fragment: {e}", node=fi.node)
-            continue
-        if set(out) != {"voltage_term", "constant_term"}:
-            raise AnalysisError(f"{fi.qual}: voltage_term / constant_term assignments vanished")
-        slope = rat_of(out["voltage_term"][0])
-        off = rat_of(out["constant_term"][0])
-        w_slope = parse_ref(ev, "(I1 - I0)/d")
-        w_off = parse_ref(ev, "I0 - ((I1 - I0)/d)*V", {"V": PW.of(Rat.atom(f"voltages@{who}"))})
-        col.check(slope.eq(w_slope), R, fi, f"{fi.name}: slope = (I(v+diff) - I(v)) / diff", "secant slope",
-                  f"slope is {slope}", node=out["voltage_term"][1])
-        col.check(off.eq(w_off), R, fi, f"{fi.name}: offset = I(v) - slope * v at the {who} compartment",
-                  f"I0 - slope*voltages[{who}]", f"offset is {off}; required I0 - slope*voltages[{who} indices]",
-                  node=out["constant_term"][1])
-        forms[fi.name] = (slope, off)
-    # perturbation size is a small positive literal and the same in both
-    diffs = {}
-    for fi in (fc, fs):
-        for n in walk_no_nested(fi.node):
-            if isinstance(n, ast.Assign) and isinstance(n.targets[0], ast.Name) and n.targets[0].id == "diff" and isinstance(n.value, ast.Constant):
-                diffs[fi.name] = n.value.value
-    col.check(len(diffs) == 2 and len(set(diffs.values())) == 1 and all(0 < v <= 0.01 for v in diffs.values()), R, fs,
-              "both linearisations perturb by the same small voltage", str(diffs), f"perturbations are {diffs}", node=fs.node)
-    # stacked voltages: [v, v + diff]
-    for fi, arrname in ((fc, "v_and_perturbed"), (fs, "post_v_and_perturbed"), (fs, "pre_v_and_perturbed")):
-        for n in walk_no_nested(fi.node):
-            if isinstance(n, ast.Assign) and isinstance(n.targets[0], ast.Name) and n.targets[0].id == arrname:
-                c = n.value
-                ok = isinstance(c, ast.Call) and unparse(c.func).endswith("stack") and isinstance(c.args[0], (ast.List, ast.Tuple)) and \
-                    len(c.args[0].elts) == 2 and isinstance(c.args[0].elts[1], ast.BinOp) and isinstance(c.args[0].elts[1].op, ast.Add) and \
-                    unparse(c.args[0].elts[1].left) == unparse(c.args[0].elts[0]) and unparse(c.args[0].elts[1].right) == "diff"
-                col.check(ok, R, fi, f"{fi.name}: {arrname} = [v, v + diff]", unparse(c)[:80], f"{arrname} is {unparse(c)[:100]}", node=n)
-    # accumulation signs and unit factor (channels)
-    for n in ast.walk(fc.node):
-        if isinstance(n, ast.Assign) and isinstance(n.targets[0], ast.Name) and n.targets[0].id in ("voltage_terms", "constant_terms") \
-                and isinstance(n.value, ast.Call) and isinstance(n.value.func, ast.Attribute) and n.value.func.attr in ("add", "set"):
-            tgt = n.targets[0].id
-            arg = unparse(n.value.args[0]).replace(" ", "")
-            want = "voltage_term*1000.0" if tgt == "voltage_terms" else "-constant_term*1000.0"
-            alt = want.replace("1000.0", "1000")
-            ix = unparse(n.value.func.value.slice)
-            col.check(n.value.func.attr == "add" and arg in (want, alt, "1000.0*" + want[:-7], "(" + want + ")") and ix == "indices", R, fc,
-                      f"channels: {tgt} += {want} at the channel's own compartments", unparse(n.value)[:80],
-                      f"{tgt} is accumulated as `{unparse(n.value)}`; required .at[indices].add({want})", node=n)
+            slope, off = _trat(slope_t, leaf), _trat(off_t, leaf)
+        except _Und as e:
+            col.unk(R, fi, f"{fi.name}: linearisation", str(e), node=node)
+            return None
+        from fractions import Fraction as _Fr
+        dd = _Rat.const(_Fr(str(d)))
+        I0, I1, V = _Rat.atom("I0"), _Rat.atom("I1"), _Rat.atom("V@own")
+        w_slope = (I1 - I0) / dd
+        col.check(slope.eq(w_slope), R, fi, f"{fi.name}: slope = (I(v+d) - I(v)) / d with the d of the stacked voltages", "secant slope",
+                  f"slope is {slope}, required (I1 - I0)/{d}", node=node)
+        col.check(off.eq(I0 - w_slope * V), R, fi, f"{fi.name}: offset = I(v) - slope * v at the {who} compartment",
+                  "I0 - slope * v[rows the current flows into]", f"offset is {off}; required I0 - slope * v at the {who} rows", node=node)
+        return d
+    ds_ = {}
+    # channels: what is added into the two accumulators
+    exc = idx.expander(repo, fc)
+    rc = exc.returns[-1] if exc.returns else None
+    accs = rc.args[1].args if (rc is not None and rc.op == "tuple" and len(rc.args) == 2 and rc.args[1].op == "tuple" and len(rc.args[1].args) == 2) else None
+    if accs is None:
+        raise AnalysisError("Module._channel_currents no longer returns (states, (voltage terms, constant terms))")
+    adds = []
+    for acc in accs:
+        ad = T.find(_fuse(idx.inline(repo, fc, acc)), lambda x: x.op == "mcall" and x.name in ("add", "set") and x.args and x.args[0].op == "sub" and
+                    x.args[0].args[0].op == "attr" and x.args[0].args[0].name == "at" and len(x.args) > 1)
+        adds.append(ad)
+    if None in adds:
+        raise AnalysisError("Module._channel_currents: the accumulation into the voltage / constant terms was not found")
+    rows_t = adds[0].args[0].args[1]
+    col.check(adds[0].name == adds[1].name == "add" and adds[1].args[0].args[1].key() == rows_t.key(), R, fc,
+              "channels: both terms are accumulated at the channel's own compartments", ".at[rows].add(...) twice, same rows",
+              f"the accumulations are {adds[0].short(60)} / {adds[1].short(60)}", node=fc.node)
+
+    def unit(t_):
+        """t_ == c * X: (c, X) for a numeric factor c (the mA -> uA conversion), else (1, t_)"""
+        neg = False
+        while t_.op == "unary" and t_.name == "USub":
+            neg, t_ = not neg, t_.args[0]
+        c_, X = 1, t_
+        if t_.op == "binop" and t_.name == "*":
+            for k_, o_ in ((0, 1), (1, 0)):
+                if t_.args[k_].op == "const" and isinstance(t_.args[k_].name, (int, float)):
+                    c_, X = t_.args[k_].name, t_.args[o_]
+        while X.op == "unary" and X.name == "USub":
+            neg, X = not neg, X.args[0]
+        return (-c_ if neg else c_), X
+    (cv, Xv), (cc, Xc) = unit(adds[0].args[1]), unit(adds[1].args[1])
+    col.check(cv == 1000 and cc == -1000, R, fc, "channels: voltage terms += 1000 * slope, constant terms += -1000 * offset",
+              "mA/cm^2 -> uA/cm^2, the offset with the opposite sign", f"factors are {cv} (slope) and {cc} (offset)", node=fc.node)
+    ds_["_channel_currents"] = analyse(fc, Xv, Xc, "own", rows_t.key(), fc.node)
+    # synapses: what is handed to gather_synapes
+    exs0 = idx.expander(repo, fs)
+    gs0 = next((c for c in exs0.calls if isinstance(c.func, ast.Name) and c.func.id == "gather_synapes" and len(c.args) >= 4), None)
+    if gs0 is None:
+        raise AnalysisError("Network._synapse_currents no longer calls gather_synapes(n, post rows, slope, offset)")
+    post_rows = _fuse(idx.inline(repo, fs, exs0.term(gs0.args[1])))
+    sl_t, of_t = (_fuse(idx.inline(repo, fs, exs0.term(gs0.args[k]))) for k in (2, 3))
+    if sl_t.op != "binop" or sl_t.name != "/":      # (the order of the two is a separate obligation below)
+        sl_t, of_t = of_t, sl_t
+    ds_["_synapse_currents"] = analyse(fs, sl_t, of_t, "post", post_rows.key(), gs0)
+    vals = [v for v in ds_.values() if v is not None]
+    col.check(len(vals) == 2 and vals[0] == vals[1], R, fs, "both linearisations perturb by the same small voltage", str(ds_),
+              f"perturbations are {ds_}", node=fs.node)
     # accumulation signs (synapses): the returned pair is (sum of the gathered slopes, MINUS the sum of the gathered offsets),
     # read off the returned terms -- `x += g[0]`, `x = x + g0` after unpacking, ... are the same
     from sa.termalg import term_rat as _trat
